@@ -4,12 +4,14 @@ from __future__ import annotations
 import itertools
 import time
 
+from architecture_simulator.isa.parser_exceptions import ParserException
 from architecture_simulator.simulation.riscv_simulation import RiscvSimulation
 from architecture_simulator.simulation.runtime_errors import InstructionExecutionException
 from architecture_simulator.simulation.toy_simulation import ToySimulation
 
 from vf.adapt import inspect as insp
 from vf.adapt import rv
+from vf.checks import freshcmp
 from vf.engine.canon import canon
 from vf.engine.core import Partial, digest, pmap
 
@@ -34,6 +36,16 @@ RV_CORPUS = [
     ("negative-addresses", "lui x3, 4\nsw x3, -4(x0)\nlw x1, -4(x0)\nsh x1, -8(x0)\nlbu x2, -1(x0)\naddi x4, x0, -16\nsw x1, 4(x4)\nlw x5, -12(x0)\nsw x1, 0(x3)\n"),
     # four conflicting blocks in one set, then hits in the middle of the recency order
     ("middle-hits", "lui x3, 4\nlw x1, 0(x3)\nlw x2, 64(x3)\nlw x4, 128(x3)\nlw x5, 192(x3)\nlw x6, 64(x3)\nlw x7, 128(x3)\nlw x8, 0(x3)\nsw x8, 64(x3)\nlw x9, 256(x3)\nlw x10, 64(x3)\n"),
+]
+# programs with a script of later loads: (first text, ((k, text loaded after k steps), ...)); a rejected load is swallowed
+RV_RELOADS = [
+    ("reload-empty", ("addi x1, x0, 1\naddi x2, x1, 1\nadd x3, x2, x1\nsw x3, 0(x0)\n", ((2, ""),))),
+    ("reload-rejected-then-other", (".data\na: .word 5\n.text\nlw x1, a\naddi x1, x1, 1\nsw x1, a, x2\n", ((2, "addi x1, x0, 1\nbeq x0, x0, nowhere\n"), (2, "lui x3, 4\nlw x4, 0(x3)\naddi x5, x4, 2\n")))),
+    ("reload-same", ("lui x3, 4\nsw x3, 0(x3)\nlw x1, 0(x3)\nadd x2, x1, x1\n", ((3, "lui x3, 4\nsw x3, 0(x3)\nlw x1, 0(x3)\nadd x2, x1, x1\n"),))),
+]
+TOY_RELOADS = [
+    ("reload-empty", ("INC\nINC\nSTO 100\nDEC\n", ((2, ""),))),
+    ("reload-rejected-then-other", (".data\nv: .word 3\n.text\nLDA v\nINC\nSTO v\n", ((2, "LDA nowhere\n"), (2, "ZRO\nBRZ e\nINC\ne:\nDEC\n")))),
 ]
 RV_MORE = [
     ("div-rem", "addi x1, x0, -7\naddi x2, x0, 2\ndiv x3, x1, x2\nrem x4, x1, x2\ndivu x5, x1, x0\n"),
@@ -70,8 +82,15 @@ def make(kind, text, mode, cache):
         if i is not None:
             kw["instruction_cache"] = i
         sim = RiscvSimulation(mode=mode.replace("-nohazard", ""), detect_data_hazards=not mode.endswith("-nohazard"), **kw)
-    sim.load_program(text)
+    sim.load_program(text[0] if isinstance(text, tuple) else text)
     return sim
+
+
+def reload(sim, text):
+    try:
+        sim.load_program(text)
+    except ParserException:
+        pass
 
 
 def advance(sim, kind, mode):
@@ -95,18 +114,29 @@ def observe(sim):
     return tuple((nm, canon(f())) for nm, f in funcs.items())
 
 
-def run_to(kind, text, mode, cache, schedule, stop):
+def run_to(kind, text, mode, cache, schedule, stop, only=None):
     """Run with the inspection calls of `schedule` ({step index: [function names]}, 0 = before the first step) and stop
     after `stop` steps (None = run to the end). Returns (steps taken, observation at the stop point, raw-state digest)."""
     sim = make(kind, text, mode, cache)
     funcs = insp.functions(sim)
+    loads = list(text[1]) if isinstance(text, tuple) else []
     n = 0
+    since = 0  # steps since the last load
     while True:
         for name in schedule.get(n, ()):
             funcs[name]()
-        if (stop is not None and n >= stop) or n >= MAXSTEPS or not advance(sim, kind, mode):
+        if (stop is not None and n >= stop) or n >= MAXSTEPS:
             break
+        if loads and (since >= loads[0][0] or sim.is_done()):
+            reload(sim, loads.pop(0)[1])  # one "step" of the history is the load of the next program of the script
+            since = 0
+        elif not advance(sim, kind, mode):
+            break
+        else:
+            since += 1
         n += 1
+    if only is not None:
+        return n, ((only, canon(funcs[only]())),), None
     raw = digest(insp.state_canon(sim))
     return n, observe(sim), raw
 
@@ -117,11 +147,8 @@ def clean_baseline(kind, text, mode, cache, stop, names):
     n, _obs, raw = run_to(kind, text, mode, cache, {}, stop)
     obs = []
     for nm in names:
-        sim = make(kind, text, mode, cache)
-        k = 0
-        while not ((stop is not None and k >= stop) or k >= MAXSTEPS or not advance(sim, kind, mode)):
-            k += 1
-        obs.append((nm, canon(insp.functions(sim)[nm]())))
+        _n, one, _r = run_to(kind, text, mode, cache, {}, stop, only=nm)
+        obs.append(one[0])
     return n, tuple(obs), raw
 
 
@@ -193,9 +220,39 @@ def shard_fn(shard):
     return p
 
 
+def fresh_probe(kind, pname, mode, cache, upto, stop):
+    """Runs in a pristine interpreter (vf.engine.fresh): the program with every inspection function called after every
+    step up to step `upto` (-1: none), stopped after `stop` steps, then observed with all inspection functions."""
+    text = dict(TOY_CORPUS + TOY_RELOADS if kind == "toy" else RV_CORPUS + RV_MORE + RV_RELOADS)[pname]
+    names = list(insp.functions(make(kind, text, mode, cache)))
+    n, obs, _raw = run_to(kind, text, mode, cache, {k: list(names) for k in range(upto + 1)}, stop)
+    return {"steps": n, "observations": [[nm, repr(c)] for nm, c in obs]}
+
+
+def fresh_items(thorough):
+    """An inspection call must not leave anything behind at class or module level either: the inspected run and the
+    reference run each get their own interpreter (in one process the reference's own probes would leave the same traces)."""
+    out = []
+    todo = [("toy", pname, mode, "none") for pname, _t in TOY_CORPUS[:4] for mode in ("whole", "half")]
+    todo += [("riscv", pname, mode, cache) for pname, mode, cache in (("loop", rv.FIVE, "wb-both"), ("ecalls", rv.SINGLE, "none"), ("hazards", rv.FIVE, "none"), ("loads-stores", rv.SINGLE, "wt-both"))]
+    for kind, pname, mode, cache in todo:
+        text = dict(TOY_CORPUS if kind == "toy" else RV_CORPUS)[pname]
+        nsteps, _o, _r = run_to(kind, text, mode, cache, {}, None)
+        stops = list(range(1, nsteps + 1))
+        if not thorough and len(stops) > 10 and not (kind == "toy" and mode == "half"):
+            stops = sorted(set(stops[:: max(1, len(stops) // 8)]) | {nsteps, nsteps - 1})
+        for stop in stops:
+            out.append(("inspection-purity", f"{kind}/{pname}/{mode}/{cache}: every inspection function after every step before step {stop}, observed after step {stop}",
+                        ["call", "vf.checks.c16", "fresh_probe", [kind, pname, mode, cache, -1, stop]],
+                        ["call", "vf.checks.c16", "fresh_probe", [kind, pname, mode, cache, stop - 1, stop]]))
+    return out
+
+
 def replay(case):
+    if case.get("kind") == "fresh-pair":
+        return freshcmp.replay(case)
     kind, pname, mode, cache = case["arch"], case["program"], case["mode"], case["cache"]
-    corpus = dict(TOY_CORPUS if kind == "toy" else RV_CORPUS + RV_MORE)
+    corpus = dict(TOY_CORPUS + TOY_RELOADS if kind == "toy" else RV_CORPUS + RV_MORE + RV_RELOADS)
     text = corpus[pname]
     schedule = {int(k): v for k, v in case["schedule"].items()}
     names = list(insp.functions(make(kind, text, mode, cache)))
@@ -220,7 +277,7 @@ def run(ctx):
                 "equal observables (say, a filled representation cache) is counted, not reported. The saturated schedule is applied up to every step index. Non-trivial = program with more than one step.")
     ctx.assumptions += ["wall-clock fields and the two timing lines of the metrics text are masked"]
     shards = []
-    corpus = RV_CORPUS + (RV_MORE if thorough else [])
+    corpus = RV_CORPUS + RV_RELOADS + (RV_MORE if thorough else [])
     modes = [rv.SINGLE, rv.FIVE] + ([rv.FIVE + "-nohazard"] if thorough else [])
     k = ctx.seed
     for pname, text in corpus:
@@ -232,7 +289,7 @@ def run(ctx):
                 parts = 4 if thorough else 1
                 for part in range(parts):
                     shards.append(("riscv", pname, text, mode, cache, 2 if thorough and len(text) < 160 else 1, part, parts))
-    for pname, text in TOY_CORPUS:
+    for pname, text in TOY_CORPUS + TOY_RELOADS:
         for mode in ("whole", "half"):
             for part in range(2):
                 shards.append(("toy", pname, text, mode, "none", 2 if thorough else 1, part, 2))
@@ -240,3 +297,9 @@ def run(ctx):
     part = pmap(shard_fn, shards)
     ctx.space("inspection-deviations", part, t0, runs=len(shards), bound=2 if thorough else 1)
     ctx.require("saturated")
+    t0 = time.time()
+    items = fresh_items(thorough)
+    part = pmap(freshcmp.pair_shard, [items[i::32] for i in range(32) if items[i::32]])
+    ctx.space("inspected-vs-uninspected-in-fresh-interpreters", part, t0, pairs=len(items),
+              note="each run in its own interpreter: traces an inspection call leaves at class / module level cannot be shared with the reference run")
+    ctx.require("fresh-interpreter-differential")
